@@ -16,6 +16,7 @@ DIRECT['C19'] = {'read-vs-spec', 'read-vs-spec-after-repair', 'scan-vs-spec', 'i
 DIRECT['C20'] = {'backup-contents', 'backup-not-independent', 'copy-contents', 'wrongcmp-not-refused', 'wrongcmp-modified-files',
                  'lock-not-exclusive', 'lock-not-released', 'lock-dropped-by-failed-open',
                  'read-vs-spec', 'scan-vs-spec', 'api-error', 'harness-crash'}     # the source must stay unchanged and usable
+DIRECT['C05'] = {'api-error', 'read-vs-spec', 'scan-vs-spec', 'harness-crash', 'layout-mismatch'}
 INDIRECT = {
     'C01': {'replica-divergence', 'step-not-guarded', 'step-output-differs', 'inv-false-on-observed'},
     'C06': {'replica-divergence', 'step-not-guarded', 'step-output-differs', 'inv-false-on-observed'},
